@@ -181,6 +181,26 @@ def run(run, binfo):
                                    'expected': 'rejected at load, or deny for all credentials', 'observed': g})
                 else:
                     run.nontrivial.add(repr(v))
+    # values only Python callers or YAML's own tags can produce (byte strings, sets, complex numbers): not rules either
+    import yaml
+    exotic = [b'', bytearray(b''), b'x', b'@', ['@', b''], [['role:admin'], b''], [[b'']], set(), frozenset(['@']), {'@'},
+              0j, ['@', set()], [('@',), b'']]      # (tuples count as lists for Python callers)
+    for v in exotic:
+        for how in ('from_dict', 'from_dict+default', 'yaml', 'yaml+default'):
+            if how.startswith('yaml'):
+                try:
+                    yaml.safe_dump({'the_rule': v})
+                except Exception:   # noqa
+                    continue
+            run.evaluations += 1
+            g = grants(v, how)
+            if g[0] == 'crash' or (g[0] == 'decisions' and any(g[1])):
+                run.violation('nonrule-grants', 'non-rule value %r via %s is not rejected and does not deny: %r'
+                              % (v, how, g),
+                              {'kind': 'failing-input', 'suite': 'spec-c02', 'input': {'value': repr(v), 'how': how},
+                               'expected': 'rejected at load, or deny for all credentials', 'observed': g})
+            else:
+                run.nontrivial.add(repr(v))
     # rule-shaped list values: the decision is the documented OR of ANDs, where a member that is not
     # of the form kind:match behaves as '!'  (extracted spec_list)
     from common import S
